@@ -64,7 +64,7 @@ def strategy(tier):
 
 
 def n_random(tier):
-    return 16 if tier == "quick" else 120
+    return 16 if tier == "quick" else 40
 
 
 # ----------------------------------------------------------------- name emission (runs in origin and receivers)
@@ -195,7 +195,9 @@ def perturb(v):
         for k in v:
             p = perturb(v[k])
             if p is not None:
-                return dict(v, **{k: p})
+                d = dict(v)
+                d[k] = p  # keys need not be strings
+                return d
         return dict(v, **{"__extra__": 1})
     return None
 
@@ -280,7 +282,8 @@ def check(case):
                             root = dv[prog["out"][0]]
                             # other data => another query: the root must get another name (expressions are singletons keyed by
                             # their name, so a collision would hand back the ORIGINAL source and S() could not see the difference)
-                            if kind in ("cell", "rows-swapped") and hasattr(root, "expr") and ev.expr._name == root.expr._name:
+                            live = set(interp.static_flags(prog)[prog["out"][0]].srcs)
+                            if kind in ("cell", "rows-swapped") and prog["tables"][where]["name"] in live and hasattr(root, "expr") and ev.expr._name == root.expr._name:
                                 failures.append(Failure("name-collision", f"program {pi}: the same query over different data ({kind} of table {where} changed) has the same name {ev.expr._name!r}",
                                                         extra={"bucket_hint": "data-variant", "program": prog}).record())
                     except Exception:
